@@ -9,6 +9,7 @@
 #include "gen.hpp"
 #include "opwrap.hpp"
 #include "solvers.hpp"
+#include "kernfault.hpp"
 #include <Spectra/SymEigsSolver.h>
 #include <Spectra/HermEigsSolver.h>
 #include <Spectra/SymEigsShiftSolver.h>
